@@ -7,7 +7,9 @@ class Where(Operation):
     def __call__(self, a, b, *, condition):
         self.variables = (a, b)
         self.condition = np.asarray(condition, dtype=bool)
-        return np.where(condition, a.data, b.data)
+        # use the recorded boolean array: a condition given as a Tensor would be
+        # dispatched back to mygrad by NumPy
+        return np.where(self.condition, a.data, b.data)
 
     def backward_var(self, grad, index, **kwargs):
         condition = self.condition if index == 0 else ~self.condition
